@@ -11,6 +11,7 @@ handwritten  files produced without armi (block/flow YAML): valid values, invali
 renames      every documented old name (+ synthetic expiring ones) in a file lands on the new setting
 copies       modified()/duplicate()/pickle leave the original untouched (also for list/dict values)
 each_setting one group of single-setting documents per setting of the App (deterministic values, all styles)
+numeric_table every numeric setting x boundary values against the documented coercion + range (independent table)
 xs_table     complete presence table of geometry / xsFileLocation / fluxFileLocation of a crossSectionControl entry
 """
 import copy
@@ -208,8 +209,12 @@ def _spec(node):
         return _spec(node.schema)
     if isinstance(node, vol.All):
         subs = [_spec(x) for x in node.validators]
-        base = dict(subs[0])
-        for s in subs[1:]:
+        # the value type is the first validator that says one (whatever its position); ranges are merged from all of them
+        first = next((i for i, x in enumerate(subs) if x["t"] not in ("range", "unknown")), 0)
+        base = dict(subs[first])
+        if first != 0:
+            base["extra"] = True  # unusual order: only the table / the schema itself can say what is admitted
+        for s in subs[:first] + subs[first + 1:]:
             if s["t"] == "range":
                 for k in ("min", "max", "minInc", "maxInc"):
                     if k in s:
@@ -374,6 +379,112 @@ def _model(spec, v):
 
 
 # --------------------------------------------------------------------------------------------------
+# numeric settings: documented coercion + range, transcribed from the setting definitions of the framework and the built-in
+# plugins (NOT read from the schema objects at run time, so a changed schema cannot change the expectation).
+# Semantics: the value is coerced with int()/float() FIRST, the coerced value must lie in the range, the coerced value is
+# held; 'none': None is admitted and held; 'list': a list of such numbers is admitted as well.
+_R0 = {"min": 0, "minInc": True}
+_R0X = {"min": 0, "minInc": False}
+_R01 = {"min": 0, "minInc": True, "max": 1, "maxInc": True}
+NUMERIC_TABLE = {
+    "Tin": {"type": "float", "min": -273.15, "minInc": True},
+    "Tout": {"type": "float", "min": -273.15, "minInc": True},
+    "acceptableBlockAreaError": dict(_R0X, type="float"),
+    "aclpDoseLimit": {"type": "float"},
+    "availabilityFactor": dict(_R0, type="float", none=True),
+    "axialMeshRefinementFactor": dict(_R0X, type="int"),
+    "bcCoefficient": {"type": "float"},
+    "beta": dict(_R01, type="float", none=True, list=dict(_R01, type="float")),
+    "burnSteps": dict(_R0, type="int", none=True),
+    "burnupPeakingFactor": dict(_R0, type="float"),
+    "circularRingPitch": {"type": "float"},
+    "customFuelManagementIndex": {"type": "int"},
+    "cycleLength": dict(_R0X, type="float", none=True),
+    "dbStorageAfterCycle": dict(_R0, type="int"),
+    "decayConstants": dict(_R0, type="float", none=True, list=dict(_R0, type="float")),
+    "deferredInterfacesCycle": {"type": "int"},
+    "dpaPerFluence": {"type": "float"},
+    "epsEig": {"type": "float"},
+    "epsFSAvg": {"type": "float"},
+    "epsFSPoint": {"type": "float"},
+    "fissionGasYieldFraction": {"type": "float"},
+    "infiniteDiluteCutoff": {"type": "float"},
+    "inners": {"type": "int"},
+    "jumpRingNum": {"type": "int"},
+    "levelsPerCascade": {"type": "int"},
+    "loadPadElevation": {"type": "float"},
+    "loadPadLength": {"type": "float"},
+    "lowPowerRegionFraction": dict(_R01, type="float"),
+    "minMeshSizeRatio": dict(_R0X, type="float"),
+    "minimumFissileFraction": {"type": "float"},
+    "minimumNuclideDensity": {"type": "float"},
+    "nCycles": {"type": "int", "min": 1, "minInc": True},
+    "nTasks": {"type": "int", "min": 1, "minInc": True},
+    "numberMeshPerEdge": {"type": "int"},
+    "outers": {"type": "int"},
+    "power": dict(_R0, type="float"),
+    "powerDensity": dict(_R0, type="float"),
+    "removePerCycle": {"type": "int"},
+    "skipCycles": dict(_R0, type="int"),
+    "startCycle": dict(_R0, type="int"),
+    "startNode": dict(_R0, type="int"),
+    "targetK": dict(_R0, type="float"),
+    "tightCouplingMaxNumIters": {"type": "int"},
+    "timelineInclusionCutoff": {"type": "float", "min": 0, "minInc": True, "max": 100, "maxInc": True},
+    "tolerateBurnupChange": {"type": "float"},
+    "uniformMeshMinimumSize": dict(_R0X, type="float", none=True),
+    "xsBucklingConvergence": {"type": "float"},
+    "xsEigenvalueConvergence": {"type": "float"},
+    "xsScatteringOrder": {"type": "int"},
+}
+
+
+def _numeric_scalar(entry, v):
+    typ = int if entry["type"] == "int" else float
+    try:
+        x = typ(v)
+    except (ValueError, TypeError, OverflowError):
+        return "invalid", None
+    if isinstance(x, float) and math.isnan(x):
+        return "any", None
+    return ("valid", x) if _in_range(x, entry) else ("invalid", None)
+
+
+def _numeric_model(entry, v):
+    """('valid', held value) | ('invalid', None) | ('any', None) for python value v under the documented rule."""
+    if v is None:
+        return ("valid", None) if entry.get("none") else ("invalid", None)
+    if isinstance(v, tuple):
+        return "any", None
+    if isinstance(v, list):
+        if "list" not in entry:
+            return "invalid", None
+        items = [_numeric_scalar(entry["list"], x) if not isinstance(x, (list, tuple, dict)) and x is not None else ("invalid", None) for x in v]
+        if any(i[0] == "invalid" for i in items):
+            return "invalid", None
+        if any(i[0] == "any" for i in items):
+            return "any", None
+        return "valid", [i[1] for i in items]
+    if isinstance(v, dict):
+        return "invalid", None
+    return _numeric_scalar(entry, v)
+
+
+def _table_spec(entry):
+    """Spec tree (as produced by _spec) for a table entry: drives candidate generation near the documented bounds."""
+    base = {"t": entry["type"], "coerce": True}
+    for k in ("min", "max", "minInc", "maxInc"):
+        if k in entry:
+            base[k] = entry[k]
+    alts = [base]
+    if entry.get("none"):
+        alts.append({"t": "none"})
+    if "list" in entry:
+        alts.append({"t": "list", "item": _table_spec(entry["list"])})
+    return base if len(alts) == 1 else {"t": "any", "alts": alts}
+
+
+# --------------------------------------------------------------------------------------------------
 # value strategies (JSON-encoded candidates)
 
 
@@ -488,7 +599,9 @@ def _cands(spec, default):
         return st.dictionaries(_key().filter(lambda k: k != "armi"), st.one_of(_text(), _floats(), _ints(), st.none()), max_size=3)
     if t == "flags":
         return st.lists(st.sampled_from(["FUEL", "DUCT", "CLAD", "GRID_PLATE", "fuel", "nope"]), max_size=3)
-    raise ValueError("no candidate strategy for spec %r" % (spec,))
+    # a schema shape the introspection does not know (e.g. a bare Range): values by the type of the default
+    names = {bool: "bool", int: "int", float: "float", str: "str", list: "anylist", dict: "anydict"}
+    return _cands({"t": names.get(type(default), "str"), "coerce": True}, default)
 
 
 # ---- nested schemas (hand-written from the documented schemas; (value, expectation) pairs)
@@ -659,6 +772,10 @@ def _tight_values(valid_only=False):
     return st.one_of(good, good, good, bad, wrong)
 
 
+_NUMERIC_PROBES = [0.5, 0.25, 0.999, 1.5, -0.5, 1e-9, "2", "0.5", " 3", "1e3", "-1", "0", 0, 1, 2, -1, True, False, None, 1.0, 2.0, 0.0,
+                   [0.5], [0, 1], ["0.25"], [1.5], [-1], []]
+
+
 def _falsy_for(default):
     return [False, 0, 0.0, "", [], {}, None]
 
@@ -681,9 +798,15 @@ def value_strategy(name, info, valid_only=False):
         elif t == "flags":
             mspec = {"t": "unknown"}
         cands = _cands(spec, default)
+        if name in NUMERIC_TABLE:
+            entry = NUMERIC_TABLE[name]
+            cands = st.one_of(_cands(_table_spec(entry), default), cands, st.sampled_from(_NUMERIC_PROBES))
         if not spec.get("restricted") and t not in ("modverb",):
             cands = st.one_of(cands, cands, cands, st.sampled_from(_falsy_for(default)))
-        pairs = cands.map(lambda v, m=mspec: (v, _model(m, dec(v))))
+        if name in NUMERIC_TABLE:
+            pairs = cands.map(lambda v, en=NUMERIC_TABLE[name]: (v, _numeric_model(en, dec(v))[0]))
+        else:
+            pairs = cands.map(lambda v, m=mspec: (v, _model(m, dec(v))))
         if valid_only:
             pairs = pairs.filter(lambda p: p[1] != "invalid")
     skip = None if info["defaultOk"] or not _excluded(SIG_DEFAULT) else SIG_DEFAULT
@@ -722,6 +845,15 @@ def nested_names(cat):
 # shared oracle for one assignment
 
 
+def _same_number_type(a, b):
+    """int settings hold ints, float settings floats (also inside lists)."""
+    if isinstance(a, list) and isinstance(b, list):
+        return len(a) == len(b) and all(_same_number_type(x, y) for x, y in zip(a, b))
+    if a is None or b is None:
+        return a is None and b is None
+    return isinstance(a, float) == isinstance(b, float)
+
+
 def _assign_checked(out, cs, ref, ch, part):
     """Apply one generated change to ``cs`` with the full assignment oracle.  Returns True when it was applied."""
     cat = catalogue()
@@ -754,6 +886,11 @@ def _assign_checked(out, cs, ref, ch, part):
                      lambda: "setting %s: schema admits %r but assignment raised %r" % (name, value, raised)):
             out.check(psame(after, plain(exp)), "%s/stored-value-differs-from-schema-result" % part,
                       lambda: "setting %s: assigned %r, stored %r, schema gives %r" % (name, value, after, plain(exp)))
+            if name in NUMERIC_TABLE and e != "default":
+                verdict, held = _numeric_model(NUMERIC_TABLE[name], value)
+                if verdict == "valid":
+                    out.check(psame(after, held) and _same_number_type(after, held), "%s/held-value-differs-from-documented-coercion" % part,
+                              lambda: "setting %s: assigned %r, held %r, documented coercion gives %r" % (name, value, after, held))
             kind = info["spec"]["t"]
             if e == "valid" and kind in ("xs", "tight", "cycles"):
                 want = _nested_expected(kind, _detuple(value))
@@ -1746,6 +1883,70 @@ def xs_table_execute(case):
 
 
 # --------------------------------------------------------------------------------------------------
+# part: numeric_table (every numeric setting x boundary values, judged by the documented coercion + range)
+
+
+def _numeric_probe_values(entry):
+    vals = [0.5, 0.25, 0.999, 1.5, -0.5, 2.0, 1e-9, "2", "0.5", " 3", "-1", "abc", 0, 1, 2, 7, -1, True, False, None, [0.5], ["0.25", 1], [1.5], [-1]]
+    for k in ("min", "max"):
+        if k in entry:
+            b = entry[k]
+            vals += [b, b - 1, b + 1, b - 0.5, b + 0.5, float(b), math.nextafter(float(b), -math.inf), math.nextafter(float(b), math.inf), str(b)]
+    out, seen = [], set()
+    for v in vals:
+        key = repr(v)
+        if key not in seen:
+            seen.add(key)
+            out.append(v)
+    return out
+
+
+def numeric_enum(tier):
+    cat = catalogue()
+    cases = []
+    for name in sorted(NUMERIC_TABLE):
+        cases.append({"name": name, "values": _numeric_probe_values(NUMERIC_TABLE[name]), "defined": name in cat})
+    # numeric settings of the App that the table does not know are reported, not guessed
+    for name in sorted(cat):
+        if name not in NUMERIC_TABLE and isinstance(cat[name]["default"], (int, float)) and not isinstance(cat[name]["default"], bool):
+            cases.append({"name": name, "values": [], "defined": True, "untabulated": True})
+    return cases
+
+
+def numeric_execute(case):
+    out = Out()
+    name = case["name"]
+    if case.get("untabulated") or not case["defined"]:
+        out.label("numeric-setting-not-in-table" if case.get("untabulated") else "table-entry-not-in-app")
+        return out
+    entry = NUMERIC_TABLE[name]
+    cs, ref = _fresh(), dict(_fresh().items())
+    held, docs = [], []
+    out.evals = 0
+    for v in case["values"]:
+        verdict, want = _numeric_model(entry, v)
+        _assign_checked(out, cs, ref, {"name": name, "v": v, "e": verdict}, "numeric_table")
+        out.evals += 1
+        if verdict == "valid" and not any(psame(want, h) for h in held):
+            held.append(want)
+            i = len(held) - 1
+            if i < (6 if len(case["values"]) else 0):
+                ch = {"name": name, "v": v, "e": "valid"}
+                docs.append({"changes": [ch], "style": "short", "via": "string" if i % 2 else "file", "userSet": []})
+                if i == 0:
+                    docs.append({"changes": [ch], "style": "full", "via": "string", "userSet": []})
+                if i == 1:
+                    docs.append({"changes": [ch], "style": "medium", "via": "file", "userSet": [name]})
+    for d in docs:
+        sub = documents_execute(_fix_doc(d))
+        out.violations.extend(sub.violations)
+        out.evals += 1
+    out.label("held-values:%d" % len(held))
+    out.nontrivial_count = out.evals
+    return out
+
+
+# --------------------------------------------------------------------------------------------------
 
 PARTS = [
     Part("defaults", defaults_execute, enumerate=defaults_enum, exhaustive=True, procs={"quick": 1, "thorough": 1},
@@ -1765,6 +1966,13 @@ PARTS = [
               "geometry); each is assigned over a previous value, read from a hand-written string and file over a previous value and, if "
               "admitted, written by armi in short and full style and read back; non-trivial = entry not dropped",
          bound=lambda t: "3^3 presence combinations x 2 x 2 = 108 entries x 3-5 routes"),
+    Part("numeric_table", numeric_execute, enumerate=numeric_enum, exhaustive=True, procs={"quick": 3, "thorough": 4},
+         rule="every numeric setting (49, documented coercion + range transcribed into NUMERIC_TABLE, not read from the schema objects) x "
+              "boundary values: fractions inside/outside the range, numeric strings, 0, negatives, bools, None, lists, every bound +-1, +-0.5 "
+              "and its float neighbours; oracle: admitted <=> the table admits int()/float() of the value, the held value equals that coerced "
+              "value with the documented number type, a refused value keeps the previous one; up to 6 distinct held values are written alone "
+              "(short, one full, one medium) and read back with the complete `documents` oracle; non-trivial = every evaluation",
+         bound=lambda t: "49 numeric settings x 24-42 probe values x <= 8 documents"),
     Part("assign", assign_execute, strategy=assign_strategy, budget={"quick": 3000, "thorough": 80000}, procs={"quick": 4, "thorough": 16},
          rule="Hypothesis: histories of 1-10 assignments on one Settings object; the setting is drawn uniformly (nested and container "
               "settings boosted), the value from the setting's introspected schema (Coerce/Range/In/Any/list; hand-written generators "
@@ -1772,7 +1980,7 @@ PARTS = [
               "oracle after every step: schema(v) on an independent Setting copy raises <=> assignment raises, stored == schema(v), a refused "
               "value leaves the previous one, no other setting moves, by-construction expectation of well-formed / near-miss values agrees "
               "with the schema; non-trivial = at least one accepted off-default value and one refused value"),
-    Part("documents", documents_execute, strategy=documents_strategy, budget={"quick": 2400, "thorough": 100000}, procs={"quick": 8, "thorough": 16},
+    Part("documents", documents_execute, strategy=documents_strategy, budget={"quick": 2000, "thorough": 100000}, procs={"quick": 8, "thorough": 16},
          rule="Hypothesis: 0-15 settings changed at once -> written by armi in short/medium/full style to a stream or a scratch file -> read "
               "by armi into a fresh Settings; oracle: every setting equal to the value before writing (versions modulo the armi entry), "
               "default settings still at default, the text parsed with ruamel alone has exactly the expected top-level keys per style "
